@@ -93,11 +93,15 @@ func runC17(e *Env) error {
 		{"import-lib-set-fails", "{% import 'libset' as m %}x", true},
 		{"import-lib-nested-import-fails", "{% import 'libnest' as m %}x", true},
 		{"division-by-zero", "{{ 1 / 0 }}", true},
+		{"ignore-missing-nested-missing", "a{% include 'hasmissing' ignore missing %}b", true},
+		{"ignore-missing-nested-extends-missing", "a{% include 'extmissing' ignore missing %}b", true},
+		{"ignore-missing-nested-import-missing", "a{% include 'impmissing' ignore missing %}b", true},
+		{"ignore-missing-inner-failure", "a{% include 'bad' ignore missing %}b", true},
 		{"tolerated-undefined-variable", "a{{ undefinedvar }}b", false},
 		{"tolerated-undefined-attribute", "a{{ m1.nosuch }}{{ undefinedvar.x.y }}b", false},
 		{"tolerated-ignore-missing", "a{% include 'nosuch' ignore missing %}b", false},
 	}
-	libs := map[string]string{"lib": "{% macro ok() %}ok{% endmacro %}{% macro broken() %}{{ nosuchfn() }}{% endmacro %}", "base": "[{% block c %}base{% endblock %}]", "bad": "{{ 1|nosuchfilter }}",
+	libs := map[string]string{"lib": "{% macro ok() %}ok{% endmacro %}{% macro broken() %}{{ nosuchfn() }}{% endmacro %}", "base": "[{% block c %}base{% endblock %}]", "bad": "{{ 1|nosuchfilter }}", "hasmissing": "<{% include 'nosuch-inner' %}>", "extmissing": "{% extends 'nosuch-parent' %}", "impmissing": "{% import 'nosuch-lib' as q %}x",
 		"libprint": "{% macro ok() %}ok{% endmacro %}{{ nosuchfn() }}", "libdo": "{% macro ok() %}ok{% endmacro %}{% do nosuchfn() %}", "libif": "{% macro ok() %}ok{% endmacro %}{% if true %}{{ 1|nosuchfilter }}{% endif %}",
 		"libfor": "{% macro ok() %}ok{% endmacro %}{% for i in [1] %}{{ 1 / 0 }}{% endfor %}", "libinc": "{% macro ok() %}ok{% endmacro %}{% include 'nosuch' %}", "libapply": "{% apply upper %}{{ nosuchfn() }}{% endapply %}{% macro ok() %}ok{% endmacro %}",
 		"libblock": "{% block b %}{{ nosuchfn() }}{% endblock %}{% macro ok() %}ok{% endmacro %}", "libset": "{% set q = nosuchfn() %}{% macro ok() %}ok{% endmacro %}", "libnest": "{% import 'libprint' as inner %}{% macro ok() %}ok{% endmacro %}"}
@@ -189,7 +193,7 @@ func runC17(e *Env) error {
 		g.Functions = []string{"sg1"}
 		var main []GNode
 		tpls := map[string]string{"partial": "<{{ n|sf2 }}{% if s is st1 %}y{% endif %}>", "base": "[{% block c %}{{ sg1(1) }}{% endblock %}|{% block d %}d{% endblock %}]",
-			"lib": "{% macro mac(a) %}({{ a|sf1 }}{{ sg1(a) }}){% endmacro %}"}
+			"lib": "{% macro mac(a, d = sg1(2)|sf1, e = 'lit') %}({{ a|sf1 }}{{ sg1(a) }}{{ d }}{{ e }}){% endmacro %}"}
 		switch rg.Intn(4) {
 		case 0:
 			main = g.Body(2, BodyOpts{Includes: []string{"partial"}})
